@@ -31,7 +31,7 @@ var litPres = []string{"0", "alpha", "alpha.1", "beta", "rc.1", "1", "a", "rc", 
 // so that bounds of different comparators, alternatives and constraints
 // coincide exactly (closed vs open ends at the same version, touching spans).
 var anchors = []string{"1.0.0", "2.0.0", "1.5.0", "2.3.4", "0.0.0", "3.0.0", "1.2.3"}
-var anchorsPre = []string{"1.0.0-0", "2.0.0-alpha", "1.2.3-alpha", "2.0.0-rc.1"}
+var anchorsPre = []string{"1.0.0-0", "2.0.0-alpha", "1.2.3-alpha", "2.0.0-rc.1", "0.0.0-0"}
 
 func partial(t *rapid.T, label string, wild, pre, build bool) string {
 	if k := rapid.IntRange(0, 11).Draw(t, label+"anchor"); k < 4 {
@@ -46,8 +46,9 @@ func partial(t *rapid.T, label string, wild, pre, build bool) string {
 		if wild && i > 0 && rapid.IntRange(0, 7).Draw(t, label+"w") == 0 {
 			parts = append(parts, rapid.SampledFrom([]string{"x", "X", "*"}).Draw(t, label+"wc"))
 			// trailing components after a wildcard are wildcards or absent
+			// (rarely a number: node-semver ignores whatever follows an x)
 			for i++; i < n; i++ {
-				parts = append(parts, rapid.SampledFrom([]string{"x", "*"}).Draw(t, label+"wc2"))
+				parts = append(parts, rapid.SampledFrom([]string{"x", "*", "x", "*", "x", "*", "3"}).Draw(t, label+"wc2"))
 			}
 			return strings.Join(parts, ".")
 		}
@@ -391,6 +392,8 @@ func BoundaryVersions(style string, texts ...string) []string {
 				}
 				add(base + ".0")
 				add(base + ".1")
+				add(base + ".post1")
+				add(strconv.FormatUint(n[0], 10) + "." + strconv.FormatUint(n[1], 10) + ".post0")
 			case "maven":
 				add(strconv.FormatUint(n[0], 10) + "." + strconv.FormatUint(n[1], 10))
 				add(strconv.FormatUint(n[0], 10))
